@@ -249,6 +249,21 @@ def run(tier, seed):
         if r.violated != want:
             raise common.MachineryError("canary %s: expected %s to be violated, got %r" % (cfg, want, r.violated))
         run.extra.setdefault("canaries", []).append({"module": "FeatDir", "variant": cfg, "refuted_by": r.violated})
+    # unbounded: FeatDirAbs.tla carries a TLAPS proof (any N, any number of crashes) of the set-level abstraction;
+    # TLC checks that the sequence-level FeatDir.tla refines it, and that the pre-repair seed rule does not
+    r = common.tlc("FeatDirRefine", "FeatDir_refines.cfg", workers=4, timeout=600)
+    if r.violated:
+        run.violation({"kind": "model_" + str(r.violated), "module": "FeatDirRefine (FeatDir => FeatDirAbs)", "detail": r.errtext[-2500:]})
+    run.add_tlc("FeatDirRefine", r)
+    r = common.tlc("FeatDirRefine", "FeatDir_refines_canary.cfg", workers=4, timeout=300)
+    if not r.violated:
+        raise common.MachineryError("canary: FeatDir with SeedRule=position still refines FeatDirAbs")
+    run.extra.setdefault("canaries", []).append({"module": "FeatDirRefine", "variant": "SeedRule=position", "refuted_by": r.violated})
+    verdict, detail = common.tlaps("FeatDirAbs", timeout=600)
+    run.extra["tlaps"] = {"module": "FeatDirAbs", "theorems": ["Safety: Spec => [](ManifestOnlyGood /\\ ResumeEqualsUninterrupted)", "Spec => NoRecompute"],
+                          "result": verdict, "obligations_or_detail": detail}
+    if verdict == "failed":
+        raise common.MachineryError("the TLAPS proof of FeatDirAbs no longer checks: %s" % detail)
     import torch  # noqa: F401  (imported before forking so that children do not pay for it)
     n = N_DEFAULT
     root = tempfile.mkdtemp(prefix="verif_c10_")
